@@ -309,8 +309,11 @@ class RainbowDQN(RLAlgorithm):
             # Predict the target q distribution for the same next states
             target_q_dist = self.actor_target(next_states, q=False)
 
+            # Use the length of the batch itself (not self.batch_size) for indexing
+            batch_size = target_q_dist.size(0)
+
             # Index the target q_dist to select the distributions corresponding to next_actions
-            target_q_dist = target_q_dist[range(self.batch_size), next_actions]
+            target_q_dist = target_q_dist[range(batch_size), next_actions]
 
             # Determine the target z values
             t_z = rewards + (1 - dones) * gamma * self.support
@@ -333,13 +336,13 @@ class RainbowDQN(RLAlgorithm):
             offset = (
                 torch.linspace(
                     0,
-                    (self.batch_size - 1) * self.num_atoms,
-                    self.batch_size,
+                    (batch_size - 1) * self.num_atoms,
+                    batch_size,
                     device=self.device,
                 )
                 .long()
                 .unsqueeze(1)
-                .expand(self.batch_size, self.num_atoms)
+                .expand(batch_size, self.num_atoms)
             )
             proj_dist = torch.zeros(target_q_dist.size(), device=self.device)
 
@@ -352,7 +355,7 @@ class RainbowDQN(RLAlgorithm):
 
         # Calculate the current obs
         log_q_dist = self.actor(states, q=False, log=True)
-        log_p = log_q_dist[range(self.batch_size), actions.squeeze().long()]
+        log_p = log_q_dist[range(batch_size), actions.reshape(-1).long()]
 
         # loss
         elementwise_loss = -(proj_dist * log_p).sum(1)
